@@ -21,6 +21,7 @@ package main
 import (
 	"bytes"
 	"encoding/hex"
+	"flag"
 	"fmt"
 	"math/big"
 	"sort"
@@ -29,6 +30,7 @@ import (
 
 	"github.com/canopy-network/canopy/fsm"
 	"github.com/canopy-network/canopy/lib"
+	"github.com/canopy-network/canopy/store"
 
 	"verifharness/c07lib"
 	"verifharness/env"
@@ -272,7 +274,7 @@ func gridPopulations(quick bool) []population {
 			x /= 4
 		}
 		for si, st := range statuses {
-			if quick && (c+si)%8 != 0 {
+			if quick && (c+si)%16 != 0 {
 				continue
 			}
 			for _, perm := range p2 {
@@ -283,16 +285,35 @@ func gridPopulations(quick bool) []population {
 	return out
 }
 
-const packSize = 64
+const packSize = 16
 
 func commA(p int) uint64 { return uint64(100 + 2*p) }
 func commB(p int) uint64 { return uint64(101 + 2*p) }
 
+type keyMat struct{ pub, addr []byte }
+
+var keyMemo = map[int]keyMat{}
+
+// km memoizes the public key and address of env.BLS(i) (deriving a BLS public key is a scalar multiplication).
+func km(i int) keyMat {
+	if m, ok := keyMemo[i]; ok {
+		return m
+	}
+	k := env.BLS(i)
+	m := keyMat{pub: k.PublicKey().Bytes(), addr: env.Addr(k).Bytes()}
+	keyMemo[i] = m
+	return m
+}
+
 func packGenesis(pops []population, cs capSetting, reverse bool) *fsm.GenesisState {
-	var vals []env.ValSpec
+	var vals []*fsm.Validator
+	mk := func(key int, stake uint64, committees []uint64) *fsm.Validator {
+		m := km(key)
+		return &fsm.Validator{Address: m.addr, PublicKey: m.pub, NetAddress: fmt.Sprintf("tcp://v%d", key), StakedAmount: stake, Committees: committees, Output: m.addr}
+	}
 	for p, pop := range pops {
 		for i := 0; i < 5; i++ {
-			v := env.ValSpec{Key: 5*p + i, Stake: pop.Stakes[i], OutputKey: -1, Committees: []uint64{}}
+			v := mk(5*p+i, pop.Stakes[i], []uint64{})
 			if pop.Comm[i]&1 != 0 {
 				v.Committees = append(v.Committees, commA(p))
 			}
@@ -301,9 +322,9 @@ func packGenesis(pops []population, cs capSetting, reverse bool) *fsm.GenesisSta
 			}
 			switch pop.Status[i] {
 			case 1:
-				v.MaxPaused = 5000
+				v.MaxPausedHeight = 5000
 			case 2:
-				v.Unstaking = 6000
+				v.UnstakingHeight = 6000
 			case 3:
 				v.Delegate = true
 			}
@@ -311,22 +332,19 @@ func packGenesis(pops []population, cs capSetting, reverse bool) *fsm.GenesisSta
 		}
 	}
 	// the node needs its own committee for chain 1
-	vals = append(vals, env.ValSpec{Key: 5 * packSize, Stake: 100, OutputKey: -1})
+	vals = append(vals, mk(5*packSize, 100, []uint64{env.ChainID}))
 	if reverse {
 		for i, j := 0, len(vals)-1; i < j; i, j = i+1, j-1 {
 			vals[i], vals[j] = vals[j], vals[i]
 		}
 	}
-	g := env.NewGenesis(map[int]uint64{5 * packSize: 1000}, vals, func(p *fsm.Params) {
+	g := env.NewGenesis(nil, nil, func(p *fsm.Params) {
 		p.Consensus.ProtocolVersion = fsm.NewProtocolVersion(0, 2)
 		p.Validator.MaxCommitteeSize = cs.Val
 		p.Validator.MaximumDelegatesPerCommittee = cs.Del
 	})
-	for _, v := range g.Validators {
-		if v.Committees == nil {
-			v.Committees = []uint64{}
-		}
-	}
+	g.Accounts = append(g.Accounts, &fsm.Account{Address: km(5 * packSize).addr, Amount: 1000})
+	g.Validators = vals
 	return g
 }
 
@@ -382,6 +400,8 @@ func handle(j Job) (res Result) {
 			res.Err = fmt.Sprintf("panic: %v", p)
 		}
 	}()
+	// store.blockCache is process-wide and keyed by height only; a worker runs many chains one after the other
+	store.VerifC09PurgeBlockCache()
 	switch j.Kind {
 	case "":
 		return histExec(j.Path, false)
@@ -396,7 +416,7 @@ func handle(j Job) (res Result) {
 }
 
 // query asks every production reader for (chain, role) on a node and returns the answers by reader name.
-func queryAll(c *env.Chain, chain uint64, delegate bool) map[string]string {
+func queryAll(c *env.Chain, chain uint64, delegate bool, full ...bool) map[string]string {
 	out := map[string]string{}
 	if delegate {
 		out["GetDelegates"] = renderVS(c.FSM.GetDelegates(chain))
@@ -413,7 +433,9 @@ func queryAll(c *env.Chain, chain uint64, delegate bool) map[string]string {
 	}
 	out["GetCommitteeMembers"] = renderVS(c.FSM.GetCommitteeMembers(chain))
 	out["LoadCommittee(h)"] = renderVS(c.FSM.LoadCommittee(chain, c.Height()))
-	out["LoadCommittee(0)"] = renderVS(c.FSM.LoadCommittee(chain, 0))
+	if len(full) == 0 || full[0] {
+		out["LoadCommittee(0)"] = renderVS(c.FSM.LoadCommittee(chain, 0))
+	}
 	return out
 }
 
@@ -478,7 +500,7 @@ func gridJob(j Job) (res Result) {
 								res.Empty++
 							}
 						}
-						for reader, got := range queryAll(c, chain, delegate) {
+						for reader, got := range queryAll(c, chain, delegate, node == 0 && pass == 0) {
 							res.Queries++
 							key := fmt.Sprintf("%d/%d/%v/%s", p, ci, delegate, reader)
 							if got != want {
@@ -532,7 +554,7 @@ func orderSig(r refSet, pop population, p int) string {
 	var idx []string
 	for _, m := range r.members {
 		for i := 0; i < 5; i++ {
-			if bytes.Equal(m.pub, env.BLS(5*p+i).PublicKey().Bytes()) {
+			if bytes.Equal(m.pub, km(5*p+i).pub) {
 				idx = append(idx, fmt.Sprintf("%d(%d)", i, pop.Stakes[i]))
 			}
 		}
@@ -939,8 +961,30 @@ func main() {
 	if !quick {
 		depth = 4
 	}
+	// the history search may use at most 45% of the budget; the grid gets the rest
+	budget := 85 * time.Second
+	if !quick {
+		budget = 25 * time.Minute
+	}
+	if f := flag.Lookup("budget"); f != nil {
+		if d, err := time.ParseDuration(f.Value.String()); err == nil && d > 0 {
+			budget = d
+		}
+	}
+	start := time.Now()
+	histCut := false
+	histStop := func() bool {
+		if r.Expired() {
+			return true
+		}
+		if time.Since(start) > budget*45/100 {
+			histCut = true
+			return true
+		}
+		return false
+	}
 	var hq, hrq, hch int64
-	bs := mc.ReplayBFS(mc.BFSConfig{Tag: "hist", NumOps: len(histOps), MaxDepth: depth, Pool: pool, OnViol: r.OnViol, Stop: r.Expired,
+	bs := mc.ReplayBFS(mc.BFSConfig{Tag: "hist", NumOps: len(histOps), MaxDepth: depth, Pool: pool, OnViol: r.OnViol, Stop: histStop,
 		OnState: func(path []int, er *mc.ExecResult) {
 			var a, b, c int64
 			fmt.Sscanf(er.Info, "%d,%d,%d", &a, &b, &c)
@@ -948,6 +992,9 @@ func main() {
 		}})
 	if !bs.Complete {
 		r.Exhaustive = false
+		if histCut {
+			r.Note("history BFS stopped at its share of the budget: depth %d completed, %d states", bs.DepthDone, bs.States)
+		}
 	}
 	fmt.Printf("history BFS depth<=%d: states=%d transitions=%d frontier=%v disabled=%d revisits=%d complete=%v; on distinct states: %d queries, %d re-queries of past heights compared, %d set changes\n",
 		depth, bs.States, bs.Transitions, bs.Frontier, bs.Disabled, bs.Revisits, bs.Complete, hq, hrq, hch)
@@ -1016,7 +1063,7 @@ func main() {
 	cov["transitions"] = int(bs.Transitions)
 	cov["traces_validated_against_impl"] = int(bs.Transitions)
 	cov["explanation"] = "states/transitions: history replay-BFS (a transition = one committed block followed by re-asking every earlier height); the grid part is reported under evaluations/distinct_nontrivial"
-	cov["history"] = map[string]any{"depth": depth, "ops": histOps, "frontier_per_depth": bs.Frontier, "disabled": bs.Disabled, "revisits": bs.Revisits, "complete": bs.Complete,
+	cov["history"] = map[string]any{"depth": depth, "ops": histOps, "depth_completed": bs.DepthDone, "frontier_per_depth": bs.Frontier, "disabled": bs.Disabled, "revisits": bs.Revisits, "complete": bs.Complete,
 		"queries_on_distinct_states": hq, "requeries_of_past_heights_compared": hrq, "set_changes_observed": hch}
 	cov["evaluations"] = evals
 	cov["distinct_nontrivial"] = len(nontriv)
